@@ -157,7 +157,7 @@ func mutateExprs(r *rand.Rand, ss []*S) {
 
 func checkC02(c *Ctx) {
 	c.Level = "translation_validation"
-	c.Rule = "programs = generated MiniGo programs of every profile on every choice path found by TLC, type-preserving mutations of them (operator within its class, constants nudged, && <-> ||), the jump-placement family (sampled), hand-written seed programs, and every In string of the repository's test tables; each run with the optimizer off and on; distinct_nontrivial = distinct (program, input) pairs whose optimized code differs from the unoptimized code"
+	c.Rule = "programs = generated MiniGo programs of every profile on every choice path found by TLC, type-preserving mutations of them (operator within its class, constants nudged, && <-> ||), the jump-placement family (sampled), the fusion-boundary family (every fusible expression / statement shape x every chunk-end context x all branch outcomes), hand-written seed programs, and every In string of the repository's test tables; each run with the optimizer off and on; distinct_nontrivial = distinct (program, input) pairs whose optimized code differs from the unoptimized code"
 	c.Assumptions = []string{"the unoptimized run of the same tree is the oracle (the property's own definition)", "VerifLoad/VerifEval mirror Load/Eval except for the optimizer flag (a drift between them is reported as exit 2)", "columns of error positions legitimately differ between the modes and are not compared"}
 	r := rand.New(rand.NewSource(c.Seed))
 	var lines []map[string]any
@@ -207,10 +207,16 @@ func checkC02(c *Ctx) {
 			c.Evaluations += 2
 		}
 	}
-	// (2) seed programs
-	for _, s := range seedPrograms {
+	// (2) seed programs and the fusion-boundary family
+	fus := fusionPrograms()
+	c.Extra["fusion_boundary_programs"] = len(fus)
+	for _, s := range append(append([]string{}, seedPrograms...), fus...) {
 		off, on := observeRun(runMain(s, false)), observeRun(runMain(s, true))
+		if !off.Ok && strings.HasPrefix(s, "package main\n\ntype In struct") {
+			fatalf("a fusion-boundary program fails with the optimizer off: %s", firstLine(off.err))
+		}
 		add(hashKey(s), off, on, map[string]any{"source": s})
+		c.Evaluations += 2
 	}
 	// (3) the repository's own test inputs, through Eval
 	inputs := repoTestInputs()
